@@ -173,6 +173,14 @@ def conditions_for_entry(FA, f, spec, depth=0):
             res.append(('then', c2, val, where, None))
             continue
         cands = FA.resolve(fn)
+        if not cands:
+            # std combinators (`cond.then_some(i).map(|i| ..)`, `helper(i).map(..)`, `Some(i).filter(..)`): the Option algebra
+            # gives the conditions under which the result is Some and its payload
+            view = opt_view(FA, norm(F.call_term(t)), spec)
+            if view is not None:
+                for va, vp in view:
+                    res.append(('some', cond + expand_predicates(FA, va, 0, spec), vp, where, None))
+                continue
         if len(cands) == 1 and not cands[0]['unsafe'] and depth < 2 and cands[0]['path'] != f['path']:
             g = cands[0]
             if g['name'] == f['name'] and fn['trait'] and len(args) >= 1 and args[0] != SELF:
@@ -383,6 +391,7 @@ def class_for(entry_cls, spec):
 
 def rule_G(FA):
     """One instance per (API method, specialisation, contract argument, accepting return)."""
+    _OPT.fa = FA
     out = []
     for (base, name), contract in sorted(API.items()):
         cands = find_method(FA, base, name)
@@ -520,6 +529,7 @@ def sib_signature(FA, base, name, pos, spec_filter=None):
 
 
 def rule_SIB(FA):
+    _OPT.fa = FA
     out = []
     for gname, props, members in SIB_GROUPS:
         sigs = []
@@ -594,17 +604,37 @@ def _unwrap_of(t):
     return None
 
 
+import threading
+
+
+class _TL(threading.local):
+    fa = None
+
+
+_OPT = _TL()   # facts of the rule run in progress (thread-local: the self-test runners analyse several trees in threads)
+
+
+def _payload(x):
+    """payload of Option term x; when the Option algebra knows the single way x is Some, the payload itself"""
+    FA = _OPT.fa
+    if FA is not None:
+        v = opt_view(FA, x)
+        if v is not None and len(v) == 1 and not has_unknown(v[0][1]):
+            return canon_opt(v[0][1])
+    return ('payload', canon_opt(x))
+
+
 def canon_opt(t):
     """Canonical form of "the payload of an Option": unwrap(x), `x?` and `if let Some(v) = x` agree."""
     if isinstance(t, tuple) and t:
         if t[0] == 'call' and t[1].split('::')[-1] in ('unwrap', 'expect', 'unwrap_unchecked') and len(t[2]) >= 1:
-            return ('payload', canon_opt(t[2][0]))
+            return _payload(t[2][0])
         if t[0] == 'field' and t[2] == '0' and isinstance(t[1], tuple) and t[1] and t[1][0] == 'variant':
             inner = t[1][1]
             if t[1][2] == 'Continue' and isinstance(inner, tuple) and inner and inner[0] == 'call' and inner[1].split('::')[-1] == 'branch' and inner[2]:
-                return ('payload', canon_opt(inner[2][0]))
+                return _payload(inner[2][0])
             if t[1][2] == 'Some':
-                return ('payload', canon_opt(inner))
+                return _payload(inner)
         return tuple(canon_opt(x) for x in t)
     return t
 
@@ -621,6 +651,7 @@ def twin_pairs(FA):
 
 
 def rule_TW(FA):
+    _OPT.fa = FA
     out = []
     for m, u, base in twin_pairs(FA):
         if base == 'Self':
@@ -643,8 +674,14 @@ def rule_TW(FA):
                 shapes.add('never-some')
                 continue
             for sk, atoms, val, where, g in conds:
+                if sk in ('some', 'then') and val is not None:
+                    val = norm(canon_opt(val))
                 if sk in ('some', 'then') and _is_call_to(val, u['name'], pm):
                     shapes.add('i')
+                elif sk in ('some', 'then') and _common_worker(FA, val, uret_m, u, m):
+                    # (vi) both twins hand over to the same private worker; arguments that differ are computed from the
+                    # same parameters (a validated table lookup on one side, the raw lookup on the other)
+                    shapes.add('vi')
                 elif sk == 'wrapper':
                     # (v) both delegate to the same component: inner.m(P) / inner.m_unchecked(P)
                     inner = val[2][0]
@@ -711,6 +748,30 @@ def rule_TW(FA):
     return out
 
 
+def _term_params(t):
+    return {x for x in subterms(t) if isinstance(x, tuple) and x and x[0] == 'param'}
+
+
+def _common_worker(FA, val, uret, u, m):
+    if not (isinstance(val, tuple) and isinstance(uret, tuple) and val[:1] == ('call',) and uret[:1] == ('call',)):
+        return False
+    if val[1] != uret[1] or len(val[2]) != len(uret[2]):
+        return False
+    w = val[1].split('::')[-1]
+    if w in (u['name'], m['name']):
+        return False
+    tgt = [g for g in FA.fns.values() if g['name'] == w and g['kind'] != 'Closure' and strip_generics(g['path']).endswith(val[1].split('::', 0)[0].split('::')[-1])]
+    if not tgt or any(g['exported'] and not g['unsafe'] for g in tgt):
+        return False
+    for x, y in zip(val[2], uret[2]):
+        if norm(canon_opt(x)) == norm(canon_opt(y)):
+            continue
+        px, py = _term_params(x), _term_params(y)
+        if not px or px != py:
+            return False
+    return True
+
+
 def _replace_params(t, u, m):
     """Express a term over u's parameter names in m's parameter names (positional)."""
     ren = {}
@@ -738,6 +799,10 @@ def rule_UNS(FA):
             key = 'R-UNS|%s' % strip_generics(f['path'])
             if f['unsafe']:
                 out.append(Inst('R-UNS', key, 'ok', f['span'], 'unsafe fn', props))
+            elif not (f['exported'] or f['pub']):
+                # a private helper is not part of the contract users see; its unchecked operations are accounted to the
+                # safe API functions that reach it (R-INV, R-G)
+                out.append(Inst('R-UNS', key, 'note', f['span'], 'private safe helper named *_unchecked', props))
             else:
                 out.append(Inst('R-UNS', key, 'violation', f['span'],
                                 '`%s` skips validation but is callable from safe code (not `unsafe fn`)' % f['name'], props))
@@ -807,8 +872,9 @@ def rule_SELP(FA):
             out.append(Inst('R-SELP', 'R-SELP|%s::select' % base, 'violation', '', 'select not found (anchor lost)', props))
             continue
         f = cands[0]
+        fi = FA.inlined(f)   # the descent / ascent may live in private helpers
         for spec in FA.specs(f):
-            F = FA.fn(f, spec)
+            F = FA.fn(fi, spec)
             bad = []
             n_checked = 0
             for bi, t in F.calls():
